@@ -2,7 +2,7 @@
 //! sweeps, determinism self-check, shrinking, replay files, known findings, evidence.
 
 use std::{
-    collections::{BTreeMap, BTreeSet, HashSet},
+    collections::{BTreeMap, HashSet},
     fmt::Debug,
     fs,
     io::Write as _,
@@ -241,9 +241,9 @@ struct WorkerOut {
     evaluations: u64,
     sweep_runs: u64,
     sweep_bases: u64,
-    nontrivial_hashes: Vec<u64>,
     all_hashes: u64,
-    states: Vec<u64>,
+    #[serde(default)]
+    hash_cap_hit: bool,
     stats: BTreeMap<String, u64>,
     sim_ms: u64,
     actions_total: u64,
@@ -254,6 +254,10 @@ struct WorkerOut {
     determinism_mismatch: Vec<String>,
     completed: bool,
 }
+
+/// Per worker process: distinct trace hashes are counted up to this many (a conservative lower
+/// bound beyond it; the evidence says when the cap was hit).
+const HASH_CAP: usize = 3_000_000;
 
 pub fn verif_root() -> PathBuf {
     PathBuf::from(std::env::var("VERIF_ROOT").unwrap_or_else(|_| "/verif".into()))
@@ -450,6 +454,29 @@ fn worker_main<E: Engine>(args: &Args, i: u64, n: u64) -> i32 {
         Tier::Thorough => 41,
     };
 
+    // Watchdog: a run that does not finish within 20 s of real time (a loop inside the code under
+    // test never returns) is recorded as in flight and the worker process ends; the parent turns
+    // that into a violation of class `hang` with the seed as replay.
+    let current = std::sync::Arc::new((std::sync::atomic::AtomicU64::new(0), std::sync::atomic::AtomicU64::new(0)));
+    {
+        let cur = current.clone();
+        let infl = infl.clone();
+        std::thread::spawn(move || {
+            let mut last = (0u64, 0u64);
+            let mut since = Instant::now();
+            loop {
+                std::thread::sleep(Duration::from_millis(250));
+                let now = (cur.0.load(std::sync::atomic::Ordering::Relaxed), cur.1.load(std::sync::atomic::Ordering::Relaxed));
+                if now != last {
+                    last = now;
+                    since = Instant::now();
+                } else if now.1 != 0 && since.elapsed() > Duration::from_secs(20) {
+                    let _ = fs::write(&infl, json!({"seed": now.0, "kind": "random"}).to_string());
+                    std::process::exit(3);
+                }
+            }
+        });
+    }
     let mut units: Vec<Unit> = Vec::new();
     let mut k = i;
     while k < sweep_bases {
@@ -476,8 +503,10 @@ fn worker_main<E: Engine>(args: &Args, i: u64, n: u64) -> i32 {
             _ => "200+",
         };
         *out.actions_hist.entry(bucket.to_string()).or_insert(0) += 1;
-        all.insert(ctx.trace_hash());
-        if ctx.nontrivial {
+        if all.len() < HASH_CAP {
+            all.insert(ctx.trace_hash());
+        }
+        if ctx.nontrivial && nontrivial.len() < HASH_CAP {
             nontrivial.insert(ctx.trace_hash());
         }
     };
@@ -562,6 +591,8 @@ fn worker_main<E: Engine>(args: &Args, i: u64, n: u64) -> i32 {
             break;
         }
         let seed = derive(args.seed, prop, k);
+        current.0.store(seed, std::sync::atomic::Ordering::Relaxed);
+        current.1.store(k + 1, std::sync::atomic::Ordering::Relaxed);
         let mut rng = Rng::new(seed);
         let cfg = E::gen_config(prop, args.tier, &mut rng);
         let max = E::max_actions(prop, &cfg);
@@ -665,17 +696,27 @@ fn worker_main<E: Engine>(args: &Args, i: u64, n: u64) -> i32 {
         }
         k += n;
     }
+    current.1.store(0, std::sync::atomic::Ordering::Relaxed);
     out.completed = completed;
-    out.nontrivial_hashes = nontrivial.into_iter().collect();
     out.all_hashes = all.len() as u64;
-    out.states = ctx.states.iter().copied().collect();
+    // distinct-trace and state hashes go to binary side files (they can be millions)
+    let path = args.out.clone().expect("--out");
+    let dump = |suffix: &str, it: &mut dyn Iterator<Item = u64>| {
+        let mut bytes = Vec::new();
+        for h in it {
+            bytes.extend_from_slice(&h.to_le_bytes());
+        }
+        let _ = fs::write(format!("{}.{suffix}", path.display()), bytes);
+    };
+    dump("nt", &mut nontrivial.iter().copied());
+    dump("st", &mut ctx.states.iter().copied());
+    out.hash_cap_hit = nontrivial.len() >= HASH_CAP;
     out.stats = ctx
         .stats
         .iter()
         .map(|(k, v)| (k.to_string(), *v))
         .collect();
     let _ = fs::remove_file(&infl);
-    let path = args.out.clone().expect("--out");
     fs::write(&path, serde_json::to_vec(&out).unwrap()).expect("write worker output");
     0
 }
@@ -1086,8 +1127,9 @@ fn parent_main<E: Engine>(args: &Args) -> i32 {
         }
     }
     let mut merged = WorkerOut::default();
-    let mut nontrivial: BTreeSet<u64> = BTreeSet::new();
-    let mut states: BTreeSet<u64> = BTreeSet::new();
+    let mut nontrivial: Vec<u64> = Vec::new();
+    let mut states: Vec<u64> = Vec::new();
+    let mut cap_hit = false;
     let mut all_done = true;
     let hard_limit = Duration::from_secs(budget_s + 120);
     for (i, out, ch) in children {
@@ -1098,6 +1140,8 @@ fn parent_main<E: Engine>(args: &Args) -> i32 {
             let infl = inflight_path(prop, i);
             let class = match &st {
                 Err(_) => "hang",
+                // the worker's own watchdog ends the process with code 3 when a run never returns
+                Ok(s) if s.code() == Some(3) => "hang",
                 Ok(_) => "abort",
             };
             match fs::read(&infl).ok().and_then(|b| serde_json::from_slice::<Value>(&b).ok()) {
@@ -1148,12 +1192,23 @@ fn parent_main<E: Engine>(args: &Args) -> i32 {
         for (k, v) in w.actions_hist {
             *merged.actions_hist.entry(k).or_insert(0) += v;
         }
-        nontrivial.extend(w.nontrivial_hashes);
-        states.extend(w.states);
+        let mut load = |suffix: &str, into: &mut Vec<u64>| {
+            if let Ok(b) = fs::read(format!("{}.{suffix}", out.display())) {
+                into.extend(b.chunks_exact(8).map(|c| u64::from_le_bytes(c.try_into().unwrap())));
+            }
+        };
+        load("nt", &mut nontrivial);
+        load("st", &mut states);
+        cap_hit |= w.hash_cap_hit;
         found.extend(w.violations);
         merged.samples.extend(w.samples);
         all_done &= w.completed;
     }
+
+    nontrivial.sort_unstable();
+    nontrivial.dedup();
+    states.sort_unstable();
+    states.dedup();
 
     // A divergence between two executions of one seed is a harness problem -- unless some
     // divergent execution violated the property: then the nondeterminism sits in the code under
@@ -1188,7 +1243,14 @@ fn parent_main<E: Engine>(args: &Args) -> i32 {
     }
     let mut known_hit: BTreeMap<String, u64> = BTreeMap::new();
     let mut real: Vec<FoundViolation> = Vec::new();
+    let mut harness_classes: Vec<String> = Vec::new();
     for (_, f) in by_key {
+        // problems of the simulator itself (resource exhaustion, broken harness invariant) are never
+        // reported as violations of the property
+        if f.violation.class.starts_with("harness") {
+            harness_classes.push(format!("{} (seed {}): {}", f.violation.class, f.seed, f.violation.detail));
+            continue;
+        }
         if let Some(k) = known_match(&known, prop, &f.violation) {
             let line = format!("KNOWN-FINDING: property={} {}", prop, k.what);
             *known_hit.entry(line).or_insert(0) += 1;
@@ -1213,6 +1275,10 @@ fn parent_main<E: Engine>(args: &Args) -> i32 {
     }
     let mut violation_lines = Vec::new();
     let mut harness_err = false;
+    for h in harness_classes.iter().take(5) {
+        eprintln!("harness error: {h}");
+        harness_err = true;
+    }
     let rev = repo_rev();
     for (class, f) in per_class.into_iter().take(4) {
         // minimise (in a child when real code may hang)
@@ -1281,7 +1347,7 @@ fn parent_main<E: Engine>(args: &Args) -> i32 {
                 loop {
                     match c.try_wait() {
                         Ok(Some(_)) => break c.wait_with_output().map_err(|e| e.to_string()),
-                        Ok(None) if start.elapsed() > Duration::from_secs(60) => {
+                        Ok(None) if start.elapsed() > Duration::from_secs(if class == "hang" { 25 } else { 90 }) => {
                             let _ = c.kill();
                             break Err("timeout".to_string());
                         }
@@ -1372,6 +1438,7 @@ fn parent_main<E: Engine>(args: &Args) -> i32 {
             "stubbed": d.stub,
             "known_findings_hit": known_hit.keys().collect::<Vec<_>>(),
             "exhaustive": false,
+            "distinct_count_capped_per_worker": cap_hit,
         },
         "assumptions": d.assumptions,
         "wall_s": wall,
